@@ -372,7 +372,7 @@ struct Sess {
 
   // -------- steps
   void do_create() {
-    int st = call([&] { return sh_create(&ses, sc.cfg.codec, sc.role); });
+    int st = call([&] { return sh_create_v(&ses, sc.cfg.codec, sc.role, sc.verb); });
     created = (ses != nullptr);
     if (st != ST_OK || !ses) cx.fail(O_PARAM, "create_failed", "of_create_codec_instance returned " + std::to_string(st));
     tr("create", (uint64_t)st);
@@ -387,6 +387,19 @@ struct Sess {
     src_cb_set = ws; rep_cb_set = wr;
     if (wr) cx.features |= F_REPCB;
     tr("setcb", (uint64_t)s);
+  }
+
+  // of_set_control_parameter(OF_RS_CTRL_SET_FIELD_SIZE): RS-2^m only; m in {4,8} must be accepted, anything else refused;
+  // whatever was set here, of_set_fec_parameters decides with the m it is given (C09)
+  void step_setctrl(const Step& st) {
+    if (!created || released || configured || sc.cfg.codec != CODEC_RSM) { cx.skipped_steps++; return; }
+    uint32_t m = st.flag;
+    int s = call([&] { return sh_set_ctrl_field_size(ses, m); });
+    bool ok_m = (m == 4 || m == 8);
+    if (ok_m && s != ST_OK) cx.fail(O_PARAM, "set_field_size_refused", "OF_RS_CTRL_SET_FIELD_SIZE with m=" + std::to_string(m) + " returned " + std::to_string(s));
+    if (!ok_m && s == ST_OK) cx.fail(O_PARAM, "set_field_size_accepted_bad_m", "OF_RS_CTRL_SET_FIELD_SIZE with m=" + std::to_string(m) + " returned OK");
+    cx.features |= F_BADCALL * 0;
+    tr("setctrl " + std::to_string(m), (uint64_t)s);
   }
 
   void step_setparams() {
@@ -792,6 +805,7 @@ struct Sess {
       case OP_FINISH: step_finish(); break;
       case OP_QUERY: step_query(st.flag ? st.flag : 3); break;
       case OP_BAD: step_bad(st); break;
+      case OP_SETCTRL: step_setctrl(st); break;
       default: break;
     }
   }
